@@ -7,6 +7,11 @@ from . import PropSpec
 class C04Quotient(QuotientWorld):
     prop = "C04"
     hang_is_violation = True
+    allow_big = True
+
+    def finish(self):
+        if self.cfg.get("big") and self.claim_open:
+            self.observe({"op": "final"})  # wide tables: one full scan at the end of the history
 
     def observe(self, step):
         if not self.claim_open:
@@ -31,6 +36,14 @@ class C04Quotient(QuotientWorld):
                 st, v = self.call(lambda: f.check(key), f"check(key {i})", sig)
                 if st == "exc" or bool(v) != (h in self.model):
                     raise Violation("keyed_check_wrong", f"check(key {i}) -> {v!r}, model {h in self.model}", sig)
+        if self.cfg.get("big") and (f.quotient > 17 or step["op"] not in ("resize", "final")):
+            # wide table: the full scan is made after resizes and at the end of the history only
+            if f.elements_added != len(self.model):
+                raise Violation("elements_added_wrong", f"after {step}: elements_added={f.elements_added}, "
+                                                        f"{len(self.model)} hashes stored", sig)
+            ctx.nontrivial = True
+            ctx.probe("wide_table_step")
+            return
         st, got = self.call(f.get_hashes, "get_hashes()", sig)
         if st == "exc":
             raise Violation("observation_raised", f"get_hashes() raised {type(got).__name__}: {got} with "
